@@ -116,6 +116,20 @@ theorem written_chunk_decodes (c : ColSpec) (hpt : c.ptype ≤ 7) (cats : List C
       acc.count = pages.flatten.length ∧ acc.loose = 0 ∧ acc.reps = List.replicate pages.flatten.length 0 :=
   written_chunk c hpt cats pages hcats hok
 
+/-- **the writer's layout arithmetic as the code has it now** (REGENERATED from `encode_dict` and `write_column` on every run,
+    translated expression by expression to functions over `Int`): the width byte is 8·itemsize, the run header announces
+    ⌈n/8⌉ groups, the zero padding completes the last group counted in BYTES (`(groups·8 − n)·itemsize`), and a v1 page ends
+    with 8 zero bytes.  `Impl.writerDictData` / `writerPageBody` are built from these regenerated functions, and
+    `written_chunk_decodes` is proved through this theorem — so an edit to that arithmetic that changes any value breaks the
+    proof obligation of C02 and C01 (not only the byte correspondence). -/
+theorem write_layout_now (n item : Nat) :
+    PqV.Gen.WriteLayout.recognised = true ∧
+    (PqV.Gen.WriteLayout.dictWidthByte item).toNat = item * 8 ∧
+    (PqV.Gen.WriteLayout.dictHeader n item).toNat = (n + 7) / 8 * 2 + 1 ∧
+    (PqV.Gen.WriteLayout.dictPad n item).toNat = ((n + 7) / 8 * 8 - n) * item ∧
+    PqV.Gen.WriteLayout.v1Trailer = 8 :=
+  Impl.write_layout_now n item
+
 /-- **the chunk metadata describes the pages present**: the `encodings` list and the `encoding_stats` the writer model
     records (compared with what the real writer records by the `wpage.chunk` correspondence) pass the validator's
     check `encodingsProblem` for every column spec and any number of pages — every page's encoding is listed, every
